@@ -50,6 +50,14 @@ class Scratch:
     def __init__(self, gocache=True):
         global CUR_GOCACHE
         base = os.environ.get("VERIF_SCRATCH_BASE", "/tmp")
+        # scratch directories of runs that were killed (no chance to clean up) are removed after 12 hours
+        for old in glob.glob(os.path.join(base, "verif-*")):
+            try:
+                if time.time() - os.path.getmtime(old) > 12 * 3600:
+                    subprocess.run(["chmod", "-R", "u+w", old], stdout=subprocess.DEVNULL, stderr=subprocess.DEVNULL)
+                    shutil.rmtree(old, ignore_errors=True)
+            except OSError:
+                pass
         self.dir = tempfile.mkdtemp(prefix="verif-", dir=base)
         if gocache:
             gc = os.path.join(self.dir, "gocache")
